@@ -8,6 +8,7 @@ monitor : statuses reported by `test` vs `validate --structured -o json` on the 
           rules); plain / JSON / YAML / JUnit renderings of the same run agree; exit code 7 iff a failed rule
 """
 import json, random, os, itertools, re
+import yaml
 import xml.etree.ElementTree as ET
 from .. import coqterm as ct
 from .. import impl, model, gen, e2e
@@ -427,11 +428,83 @@ def run_repeated_and_empty(ctx):
     return n
 
 
+def run_similar_inputs(ctx):
+    """one test file whose cases have inputs that differ in ONE scalar only (a float, an int, a string, a bool, a list order), repeat
+    an earlier input, or differ in key order; the expectations are what `validate` says about each input. `test` must meet all of
+    them in every rendering and both layouts, and with the expectation of one case flipped exactly that case must fail (a case
+    evaluated against another case's document shows here)."""
+    base = {'Ratio': 0.5, 'N': 1, 'S': 'a', 'B': True, 'L': [1, 2], 'Deep': {'r': 0.25, 'k': 'v'}}
+    def var(**kw):
+        d = json.loads(json.dumps(base)); d.update(kw); return d
+    inputs = [base, var(Ratio=0.95), var(Ratio=0.5), var(Ratio=1000.0), var(Ratio=-0.5), var(N=2), var(S='b'), var(B=False), var(L=[2, 1]),
+              var(Deep={'r': 0.75, 'k': 'v'}), var(Deep={'k': 'v', 'r': 0.25}), var(Ratio=0.6), var(Ratio=0.6000001)]
+    rules = ('rule ratio {\n  Ratio <= 0.6\n}\nrule n {\n  N == 1\n}\nrule s {\n  S == "a"\n}\nrule b {\n  B == true\n}\nrule l {\n  L[0] == 1\n}\n'
+             'rule deep {\n  Deep.r < 0.5\n}\n')
+    # what validate says about each input
+    jobs = []
+    for i, d_ in enumerate(inputs):
+        d = os.path.join(ctx.wd, 'sim_v%d' % i)
+        e2e.write_files(d, {'r.guard': rules, 'd.json': json.dumps(d_)})
+        jobs.append({'args': ['validate', '-r', 'r.guard', '-d', 'd.json', '--structured', '-o', 'json', '-S', 'none'], 'cwd': d})
+    truth = []
+    for (c, so, se), d_ in zip(e2e.run_many(jobs), inputs):
+        try:
+            rep = json.loads(so.decode())[0]
+            st = {}
+            for nm in rep['compliant']:
+                st[nm] = 'PASS'
+            for nm in rep['not_applicable']:
+                st[nm] = 'SKIP'
+            for x in rep['not_compliant']:
+                st[x['Rule']['name']] = 'FAIL'
+        except Exception as e:
+            raise ToolingError('validate on an input of the similar-inputs family is unreadable: %s' % e)
+        truth.append(st)
+    n = 0
+    flips = [None, 1, 3, len(inputs) - 1]
+    jobs, meta = [], []
+    for fi, flip in enumerate(flips):
+        spec = []
+        for i, (d_, st) in enumerate(zip(inputs, truth)):
+            exp = dict(st)
+            if flip == i:
+                exp['ratio'] = 'FAIL' if st['ratio'] == 'PASS' else 'PASS'
+            spec.append({'name': 'case%d' % i, 'input': d_, 'expectations': {'rules': exp}})
+        for sfmt, stext in (('json-spec', json.dumps(spec, indent=1)), ('yaml-spec', yaml.safe_dump(spec, sort_keys=False))):
+            d = os.path.join(ctx.wd, 'sim_t%d_%s' % (fi, sfmt))
+            e2e.write_files(d, {'r.guard': rules, 'tests/r_tests.yaml': stext, 'dir/r.guard': rules, 'dir/tests/r_tests.yaml': stext})
+            for fmt, o in (('plain', []), ('json', ['-o', 'json']), ('yaml', ['-o', 'yaml']), ('junit', ['-o', 'junit'])):
+                for layout, args in (('files', ['test', '-r', 'r.guard', '-t', 'tests/r_tests.yaml']), ('dir', ['test', '-d', 'dir'])):
+                    jobs.append({'args': args + o, 'cwd': d}); meta.append((flip, sfmt, fmt, layout))
+    for (flip, sfmt, fmt, layout), (c, so, se) in zip(meta, e2e.run_many(jobs)):
+        n += 1
+        want = 0 if flip is None else 7
+        info = {'class': 'test-vs-validate', 'kind': 'inputs that differ in one scalar', 'flipped_case': flip, 'spec_format': sfmt, 'rendering': fmt, 'layout': layout, 'rules': rules}
+        if c != want:
+            ctx.failing('test (%s, %s, %s): the expectations are what validate says about each input%s; exit %s, expected %s'
+                        % (fmt, layout, sfmt, '' if flip is None else ' except case%d' % flip, c, want), info, found=True)
+            continue
+        if fmt == 'json':
+            try:
+                from .c07 import split_json_docs as _split
+                docs_ = _split(so.decode())
+                tcs = [tc for dj in docs_ for tc in (dj.get('test_cases') or [])]
+            except Exception:
+                tcs = None
+            if tcs is not None:
+                bad = sorted(tc['name'] for tc in tcs if tc.get('failed_rules'))
+                if bad != ([] if flip is None else ['case%d' % flip]):
+                    ctx.failing('test -o json (%s, %s): cases with unmet expectations %s, expected %s' % (layout, sfmt, bad, [] if flip is None else ['case%d' % flip]), info, found=True)
+    ctx.coverage['similar_input_runs'] = n
+    ctx.coverage['evaluations'] += len(jobs) + len(inputs)
+    return n
+
+
 def run(ctx):
     ctx.build(cli=True)
     pr = ctx.proofs('C16')
     thorough = ctx.tier == 'thorough'
-    n1 = exhaustive_gsr(ctx, 6 if thorough else 4) + run_multi_files(ctx) + run_default_rule(ctx) + run_repeated_and_empty(ctx)
+    n1 = exhaustive_gsr(ctx, 6 if thorough else 4) + run_multi_files(ctx) + run_default_rule(ctx) + run_repeated_and_empty(ctx) + run_similar_inputs(ctx)
     n2 = run_e2e(ctx, 300 if thorough else 60)
     ctx.coverage['distinct_nontrivial'] = n1 + n2
     ctx.coverage['rule'] = ('get_status_result: every expected status x every status list up to length %d (all distinct); end-to-end: generated rules files '
